@@ -181,6 +181,12 @@ def execute(scenario, ch):
         for key, val in (tp.get("args") or {}).items():
             if key in t.args and t.args[key] != val:
                 viol.append(V("tracepoint-arg-altered", "%s: %r reported, %r configured" % (key, t.args[key], val)))
+        if tp.get("via") == "service":
+            # the tracepoint as the service configured it: nothing dropped, nothing made up
+            sent = dict({"fire_count": "-1", "fire_period": "-100000000"}, **(tp.get("args") or {}))
+            if dict(t.args) != sent:
+                viol.append(V("tracepoint-arguments", "snapshot reports %s, the service configured %s (missing %s, not configured %s)" % (
+                    dict(t.args), sent, sorted(set(sent) - set(t.args)), sorted(set(t.args) - set(sent)))))
         # (f) thread decoration and timestamp
         attrs = {kv.key: kv.value.string_value for kv in snap.attributes}
         if attrs.get("thread_name") != cap["thread"]:
